@@ -531,7 +531,9 @@ func (e *b44env) begin(name string, items []*b44it) *b44case {
 
 func (c *b44case) end() { emit("b44end => ok") }
 
-func b44vage(created time.Time) int64 { return int64((time.Since(created) + 30*time.Second) / time.Minute) }
+func b44vage(created time.Time) int64 {
+	return int64((time.Since(created) + 30*time.Second) / time.Minute)
+}
 
 func b44itemStr(i *bep44.Item, created time.Time) string {
 	return fmt.Sprintf("%d:%d:%s:%s:%s:%s:%d", i.Seq, i.Cas, hx(bencode.MustMarshal(i.V)), hx(i.K[:]), hx(i.Salt),
@@ -1005,7 +1007,9 @@ func (e *b44env) runSchedule(scn *b44scn, name string, choose func(opts []int) i
 				maxAcc = th.put
 			}
 		}
-		if th.st == "B" || th.st == "S" || strings.HasPrefix(th.st, "y") {
+		// a thread parked on a lock for good is a deadlock of the code under test; a thread that merely
+		// missed the deadline ("S") is reported through the compared line only (correspondence failure)
+		if th.st == "B" || strings.HasPrefix(th.st, "y") {
 			c.e.fire("C13", "thread-never-finished:"+th.st, "%s", where)
 		}
 	}
@@ -1319,7 +1323,9 @@ func (v *b44srv) lput(x *b44it) {
 	}
 	ctx, cancel := context.WithCancel(context.Background())
 	done := make(chan dht.QueryResult, 1)
-	go func() { done <- v.s.Put(ctx, dht.NewAddr(&net.UDPAddr{IP: net.IPv4(10, 9, 9, 9), Port: 9000}), p, "tok", dht.QueryRateLimiting{}) }()
+	go func() {
+		done <- v.s.Put(ctx, dht.NewAddr(&net.UDPAddr{IP: net.IPv4(10, 9, 9, 9), Port: 9000}), p, "tok", dht.QueryRateLimiting{})
+	}()
 	var res, got string
 	var q *krpc.Msg
 	select {
